@@ -28,7 +28,8 @@ RULE = ("a case = one block configuration (kind, start, interval, direction, goa
         "timeout in 1/8 s ticks, steps, machine-wide or mode-owned) + 6-28 ops (count / step hit / enable / disable / "
         "reset / restart / add / subtract / jump / advance n ticks / mode stop / mode start) biased to the window edge, "
         "the timeout instant and goals 1-4 hits away; non-trivial = at least one hit was rejected (disabled or inside "
-        "the window), a completion happened, or a timeout fired; distinct = canonical JSON of (config, ops)")
+        "the window), a completion happened, or a timeout fired; distinct = canonical JSON of (config, ops); plus an "
+        "oracle-only stream probing both deadlines 1 ms early and 1 ms late")
 TRUSTED = [
     "Model/LogicBlock.lean is hand-written; tied to mpf/devices/logic_blocks.py by correspondence on every run",
     "modelled, not verified: DelayManager + clock (deadline = now + ms/1000 on the dyadic grid), event queue order, "
@@ -262,7 +263,15 @@ class RealBlock:
             self.vm = VMachine("modes:\n  - m1\n", modes={"m1": mode})
         else:
             self.vm = VMachine(body)
-        self.vm.start()
+        from harness.common.vmachine import BootError
+        for attempt in range(3):    # the test scaffolding has a wall-clock boot limit; a loaded host can trip it
+            try:
+                self.vm.start()
+                break
+            except BootError as e:
+                if "Start took more than" not in str(e) or attempt == 2:
+                    raise InfraError("boot failed: %s" % e)
+                self.vm = VMachine("modes:\n  - m1\n", modes={"m1": mode}) if cfg["where"] == "mode" else VMachine(body)
         self.vm.align()
         self.log = []
         m = self.vm.machine
@@ -633,27 +642,73 @@ def exhaustive(ctx, model):
         ({"kind": "counter", "where": "machine", "start": 0, "interval": 1, "down": False, "goal": 2,
           "reset_on_complete": True, "disable_on_complete": False, "window": 2, "timeout": 3, "steps": 0,
           "start_enabled": False, "controls": []},
-         [["count"], ["enable"], ["disable"], ["reset"], ["adv", 1], ["adv", 2]], 5),
+         [["count"], ["enable"], ["disable"], ["reset"], ["adv", 1], ["adv", 2]], 4),
         ({"kind": "counter", "where": "machine", "start": 3, "interval": 2, "down": True, "goal": 0,
           "reset_on_complete": False, "disable_on_complete": True, "window": 1, "timeout": 2, "steps": 0,
           "start_enabled": False, "controls": [["add", 2]]},
-         [["count"], ["enable"], ["restart"], ["add", 2], ["adv", 1], ["adv", 2]], 5),
+         [["count"], ["enable"], ["restart"], ["add", 2], ["adv", 1], ["adv", 2]], 4),
         ({"kind": "sequence", "where": "machine", "start": 0, "interval": 1, "down": False, "goal": None,
           "reset_on_complete": True, "disable_on_complete": True, "window": 0, "timeout": 2, "steps": 2,
           "start_enabled": False},
-         [["hit", 0], ["hit", 1], ["enable"], ["reset"], ["adv", 1], ["adv", 2]], 5),
+         [["hit", 0], ["hit", 1], ["enable"], ["reset"], ["adv", 1], ["adv", 2]], 4),
         ({"kind": "accrual", "where": "machine", "start": 0, "interval": 1, "down": False, "goal": None,
           "reset_on_complete": False, "disable_on_complete": False, "window": 0, "timeout": 2, "steps": 2,
           "start_enabled": False},
-         [["hit", 0], ["hit", 1], ["enable"], ["disable"], ["adv", 1], ["adv", 2]], 5),
+         [["hit", 0], ["hit", 1], ["enable"], ["disable"], ["adv", 1], ["adv", 2]], 4),
     ]
     for cfg, alpha, L in spaces:
         for n in range(1, L + 1):
             for seq in itertools.product(alpha, repeat=n):
                 run_case(ctx, model, cfg, [list(o) for o in seq], sample=False)
                 total += 1
-    ctx.notes["exhaustive_subspace"] = ("all %d op sequences of length <= 5 over 6-symbol alphabets (1- and 2-tick "
+    ctx.notes["exhaustive_subspace"] = ("all %d op sequences of length <= 4 over 6-symbol alphabets (1- and 2-tick "
                                         "advances) for 4 fixed configurations (2 counters, sequence, accrual)" % total)
+
+
+def fine_case(ctx, r):
+    """oracle only, 1 ms resolution around the two deadlines: one millisecond before the window edge a hit is still
+    ignored and one after it is accepted; the timeout fires neither a millisecond early nor late"""
+    cfg = {"kind": "counter", "where": "machine", "start": r.choice([0, 3]), "interval": r.choice([1, 2]),
+           "down": r.random() < 0.3, "goal": None, "reset_on_complete": True, "disable_on_complete": False,
+           "window": r.choice([1, 2, 3, 5]), "timeout": r.choice([0, 7, 8, 11]), "steps": 0, "start_enabled": False,
+           "controls": []}
+    case = {"fine": True, "cfg": cfg}
+    ctx.evaluated(case, True, sample=False)
+    ctx.count("fine_cases")
+    real = RealBlock(cfg)
+    try:
+        vm, dev = real.vm, real.dev
+        delta = -abs(cfg["interval"]) if cfg["down"] else abs(cfg["interval"])
+        real.op(["enable"])
+        real.op(["count"])
+        v1 = dev.value
+        vm.advance(cfg["window"] * TICK - 0.001)
+        real.op(["count"])
+        early = dev.value
+        vm.advance(0.002)
+        real.op(["count"])
+        late = dev.value
+        if v1 != cfg["start"] + delta or early != v1:
+            ctx.fail("counter:window-early", case, {"after_first": v1, "1ms_before_edge": early})
+        elif late != v1 + delta:
+            ctx.fail("counter:window-late", case, {"1ms_after_edge": late, "expected": v1 + delta})
+        if cfg["timeout"]:
+            real.op(["restart"])
+            real.observe()
+            vm.advance(cfg["timeout"] * TICK - 0.001)
+            before = real.observe()
+            vm.advance(0.002)
+            after = real.observe()
+            if " T" in before:
+                ctx.fail("counter:timeout-early", case, {"1ms_before": before})
+            elif " T" not in after:
+                ctx.fail("counter:timeout-late", case, {"1ms_after": after})
+    except InfraError:
+        raise
+    except BaseException as e:
+        ctx.fail("counter:crash-fine:%s" % type(e).__name__, case, {"error": repr(e)})
+    finally:
+        real.close()
 
 
 def run(ctx):
@@ -663,11 +718,13 @@ def run(ctx):
             run_case(ctx, model, cfg, ops)
         if ctx.tier == "thorough" and not ctx.search:
             exhaustive(ctx, model)
-        for i in range(ctx.n(900, 12000)):
+        for i in range(ctx.n(900, 8000)):
             r = ctx.rng("case", i)
             cfg = gen_cfg(r)
             ops = gen_ops(r, cfg, r.randint(6, 28))
             run_case(ctx, model, cfg, ops)
+        for i in range(ctx.n(40, 400)):
+            fine_case(ctx, ctx.rng("fine", i))
         for i in range(ctx.n(60, 800)):
             r = ctx.rng("mode", i)
             cfg = gen_cfg(r, "mode")
@@ -680,6 +737,17 @@ def run(ctx):
 
 def replay(ctx, rep):
     case = rep["case"]
+    if case.get("fine"):
+        class _R:
+            def __init__(self, vals):
+                self.vals = list(vals)
+            def choice(self, xs):
+                return self.vals.pop(0)
+            def random(self):
+                return self.vals.pop(0)
+        c = case["cfg"]
+        fine_case(ctx, _R([c["start"], c["interval"], 0.0 if c["down"] else 1.0, c["window"], c["timeout"]]))
+        return
     cfg, ops = case["cfg"], case["ops"]
     failure, _, _ = execute(cfg, ops, None)
     if failure is not None:
